@@ -250,6 +250,13 @@ impl<'r> TreeGen<'r> {
                     page.bindings.push(("QTabWidget.title".into(), format!("\"tab{k}\"")));
                 }
                 o.children.push(page);
+                // a tab widget is a widget: besides its pages it may own actions and menus (declared in place, listed as
+                // <addaction>), before, between and after the pages
+                if self.rng.chance(1, 4) {
+                    let c = if self.rng.chance(1, 4) { self.gen_menu(depth + 1) } else { self.gen_action() };
+                    let at = self.rng.below(o.children.len() + 1);
+                    o.children.insert(at, c);
+                }
             }
             return o;
         }
